@@ -4187,6 +4187,18 @@ fn propagate_sctp_close_reason(inner: &PeerConnectionInner) {
                 false
             }
         });
+        // The association died on its own (remote ABORT / SHUTDOWN, heartbeat
+        // or INIT timeout, DTLS gone) while ICE/DTLS may still look healthy.
+        // The transport loops are torn down with it, so stop reporting
+        // `Connected`: same visible outcome as a DTLS close_notify.
+        inner.peer_state.send_if_modified(|cur| {
+            if *cur == PeerConnectionState::Connected {
+                *cur = PeerConnectionState::Disconnected;
+                true
+            } else {
+                false
+            }
+        });
     }
 }
 
@@ -4194,6 +4206,28 @@ async fn handle_connected_state_no_dtls(
     inner_weak: &std::sync::Weak<PeerConnectionInner>,
     ice_state_rx: &mut watch::Receiver<crate::transports::ice::IceTransportState>,
 ) -> bool {
+    // SDES keying is cut from BOTH descriptions. A callee gets here as soon as it has applied the
+    // offer (the remote address is known), i.e. before create_answer / set_local_description ran;
+    // starting the transport now fails with "Missing crypto attributes for SDES" and leaves the
+    // connection Failed for good. Wait until both descriptions are in place (no strong reference
+    // is held across the wait, so dropping the PeerConnection still tears everything down).
+    loop {
+        let ready = match inner_weak.upgrade() {
+            Some(inner) => {
+                inner.config.transport_mode != TransportMode::Srtp
+                    || (inner.local_description.lock().is_some()
+                        && inner.remote_description.lock().is_some())
+            }
+            None => return false,
+        };
+        if ready {
+            break;
+        }
+        if is_ice_failed_or_closed(*ice_state_rx.borrow()) {
+            return true;
+        }
+        tokio::time::sleep(std::time::Duration::from_millis(10)).await;
+    }
     if let Some(inner) = inner_weak.upgrade() {
         let pc_temp = PeerConnection {
             inner: inner.clone(),
